@@ -88,28 +88,29 @@ all_reference_ids: Set[str] = set()
 
 @contextmanager
 def managed_provide_cache(provide_id: str) -> Generator[None, None, None]:
-    all_reference_ids_before = all_reference_ids.copy()
+    # The `{% provide %}` tag itself holds a reference to its data for as long as its body
+    # is being rendered. Otherwise a component that is rendered to completion inside the body
+    # would drop the count to zero and delete the data while later siblings still need it.
+    provide_references.setdefault(provide_id, set()).add(provide_id)
 
     def cache_cleanup() -> None:
-        # Lastly, remove provided data from the cache that was generated during this run,
-        # IF there are no more references to it.
-        if provide_id in provide_references and not provide_references[provide_id]:
-            provide_references.pop(provide_id)
-            provide_cache.pop(provide_id)
-
-        # Case: `{% provide %}` contained no components in its body.
-        # The provided data was not referenced by any components, but it's still in the cache.
-        elif provide_id not in provide_references and provide_id in provide_cache:
-            provide_cache.pop(provide_id)
+        # Release the reference held by the `{% provide %}` tag. Remove the provided data
+        # from the cache IF there are no more references to it.
+        references = provide_references.get(provide_id)
+        if references is not None:
+            references.discard(provide_id)
+            if not references:
+                provide_references.pop(provide_id, None)
+                provide_cache.pop(provide_id, None)
 
     try:
         yield
     except Exception as e:
         # In case of an error in `Component.render()`, there may be some
-        # references left hanging, so we remove them.
-        new_reference_ids = all_reference_ids - all_reference_ids_before
-        for reference_id in new_reference_ids:
-            unregister_provide_reference(reference_id)
+        # references to THIS provided data left hanging, so we remove them.
+        for reference_id in list(provide_references.get(provide_id, ())):
+            if reference_id != provide_id:
+                unregister_provide_reference(reference_id)
 
         # Cleanup
         cache_cleanup()
@@ -144,12 +145,13 @@ def unregister_provide_reference(reference_id: str) -> None:
     all_reference_ids.remove(reference_id)
 
     for provide_id in list(provide_references.keys()):
-        if reference_id not in provide_references[provide_id]:
+        references = provide_references.get(provide_id)
+        if references is None or reference_id not in references:
             continue
 
-        provide_references[provide_id].remove(reference_id)
+        references.discard(reference_id)
 
         # There are no more references to the provided data, so we can delete it.
-        if not provide_references[provide_id]:
-            provide_cache.pop(provide_id)
-            provide_references.pop(provide_id)
+        if not references:
+            provide_cache.pop(provide_id, None)
+            provide_references.pop(provide_id, None)
